@@ -172,7 +172,7 @@ func c08Check(c specCase, r *h.Rec) error {
 						return h.Violf("%s: enum CHECK %s lists %s which is not a constant of the enum %v\n%s", where, gc.Check.String(), gv.ExactString(), wc.EnumVals, src())
 					}
 				}
-			case wc.ArrayLen != 0:
+			case wc.ArrayLen != 0 && gc.Type != "bytea":
 				n := wc.ArrayLen
 				if n < 0 {
 					n = 0
